@@ -27,6 +27,7 @@ type ordFact struct {
 
 // OrderCtx holds the facts valid at one program point.
 type OrderCtx struct {
+	at    ssa.Instruction // the program point the facts are collected for
 	fn    *ssa.Function
 	facts []ordFact
 	defs  map[string]ssa.Value // key -> defining value (for min/max/±const reasoning)
@@ -78,6 +79,9 @@ func (oc *OrderCtx) key(v ssa.Value, depth int) string {
 			if k, ok := oc.fieldKey(x, x.Type()); ok {
 				return k
 			}
+			if k, ok := oc.cellKey(x); ok {
+				return k
+			}
 		}
 	case *ssa.Field:
 		if k, ok := oc.fieldKey(x, x.Type()); ok {
@@ -112,7 +116,7 @@ func isIntType(t types.Type) bool {
 // NewOrderCtx collects the facts that hold immediately before `in`.
 func NewOrderCtx(in ssa.Instruction) *OrderCtx {
 	fn := in.Parent()
-	oc := &OrderCtx{fn: fn, defs: map[string]ssa.Value{}, uns: map[string]bool{}, mr: NewMemReach(fn)}
+	oc := &OrderCtx{at: in, fn: fn, defs: map[string]ssa.Value{}, uns: map[string]bool{}, mr: NewMemReach(fn)}
 	b := in.Block()
 	// walk the dominator chain: for each dominator D ending in If, if exactly one successor S of D
 	// has D as its only predecessor and dominates (or is) b, the condition holds with that polarity.
@@ -346,26 +350,23 @@ func (oc *OrderCtx) fieldKey(v ssa.Value, t types.Type) (string, bool) {
 		}
 	}
 	ps := strings.Join(path, ".")
-	// any store to the same path that may execute before this load makes the key unstable
+	// the load denotes the value at the program point of interest only if no store to the same
+	// path can execute between the load and that point
 	ld, _ := v.(ssa.Instruction)
-	for _, b := range oc.fn.Blocks {
-		for _, in := range b.Instrs {
-			st, ok := in.(*ssa.Store)
-			if !ok {
-				continue
-			}
-			fa, ok := st.Addr.(*ssa.FieldAddr)
-			if !ok {
-				continue
-			}
-			r2, p2 := AccessPathM(oc.mr, fa)
-			if strings.Join(p2, ".") != ps || r2 != root {
-				continue
-			}
-			if ld == nil || mayPrecede(in, ld) {
-				return "", false
-			}
+	isStore := func(in ssa.Instruction) bool {
+		st, ok := in.(*ssa.Store)
+		if !ok {
+			return false
 		}
+		fa, ok := st.Addr.(*ssa.FieldAddr)
+		if !ok {
+			return false
+		}
+		r2, p2 := AccessPathM(oc.mr, fa)
+		return strings.Join(p2, ".") == ps && (r2 == root || sameRootParam(r2, root))
+	}
+	if ld != nil && oc.at != nil && !stableBetween(ld, oc.at, isStore) {
+		return "", false
 	}
 	k := rootName + "." + ps
 	oc.noteUnsigned(k, t)
@@ -401,4 +402,262 @@ func mayPrecede(a, b ssa.Instruction) bool {
 		return false
 	}
 	return walk(a.Block())
+}
+
+func sameRootParam(a, b ssa.Value) bool {
+	pa, okA := a.(*ssa.Parameter)
+	pb, okB := b.(*ssa.Parameter)
+	return okA && okB && pa == pb
+}
+
+// stableBetween: no instruction satisfying kill can execute on a path from `from` to `to`
+// that does not pass through from's block again (the last evaluation of `from` before `to`).
+func stableBetween(from, to ssa.Instruction, kill func(ssa.Instruction) bool) bool {
+	fb, tb := from.Block(), to.Block()
+	scan := func(b *ssa.BasicBlock, after, before ssa.Instruction) bool {
+		started := after == nil
+		for _, in := range b.Instrs {
+			if in == before {
+				break
+			}
+			if !started {
+				if in == after {
+					started = true
+				}
+				continue
+			}
+			if kill(in) {
+				return false
+			}
+		}
+		return true
+	}
+	if fb == tb {
+		// from before to in the same block: only the instructions in between
+		pos := map[ssa.Instruction]int{}
+		for i, in := range fb.Instrs {
+			pos[in] = i
+		}
+		if pos[from] <= pos[to] {
+			return scan(fb, from, to)
+		}
+	}
+	if !scan(fb, from, nil) || !scan(tb, nil, to) {
+		return false
+	}
+	// blocks strictly between: forward from fb's successors avoiding fb, intersect backward from tb avoiding fb
+	fwd := map[*ssa.BasicBlock]bool{}
+	var f func(b *ssa.BasicBlock)
+	f = func(b *ssa.BasicBlock) {
+		if b == fb || fwd[b] {
+			return
+		}
+		fwd[b] = true
+		for _, s := range b.Succs {
+			f(s)
+		}
+	}
+	for _, s := range fb.Succs {
+		f(s)
+	}
+	bwd := map[*ssa.BasicBlock]bool{}
+	var g func(b *ssa.BasicBlock)
+	g = func(b *ssa.BasicBlock) {
+		if b == fb || bwd[b] {
+			return
+		}
+		bwd[b] = true
+		for _, p := range b.Preds {
+			g(p)
+		}
+	}
+	g(tb)
+	for b := range fwd {
+		if !bwd[b] || b == tb {
+			continue
+		}
+		if !scan(b, nil, nil) {
+			return false
+		}
+	}
+	// a loop through tb itself back to tb (without fb) re-executes instructions of tb after `to`
+	if fwd[tb] {
+		loops := false
+		for _, s := range tb.Succs {
+			if s != fb && bwd[s] && fwd[s] {
+				loops = true
+			}
+		}
+		if loops && !scan(tb, to, nil) {
+			return false
+		}
+	}
+	return true
+}
+
+// cellKey keys a load of a local variable kept in memory (captured by closures) or of a captured
+// variable inside a closure: all loads between which the cell cannot be written share one key.
+func (oc *OrderCtx) cellKey(ld *ssa.UnOp) (string, bool) {
+	var cell ssa.Value
+	switch c := ld.X.(type) {
+	case *ssa.Alloc:
+		cell = c
+	case *ssa.FreeVar:
+		cell = c
+	default:
+		return "", false
+	}
+	if !isIntType(ld.Type()) {
+		return "", false
+	}
+	writers := closuresWriting(oc.fn, cell)
+	kill := func(in ssa.Instruction) bool {
+		switch x := in.(type) {
+		case *ssa.Store:
+			return x.Addr == cell
+		case ssa.CallInstruction:
+			// a call that runs a closure writing the cell (directly, or passed as an argument)
+			cc := x.Common()
+			if f := calleeClosure(cc.Value); f != nil && writers[f] {
+				return true
+			}
+			for _, a := range cc.Args {
+				if f := calleeClosure(a); f != nil && writers[f] {
+					return true
+				}
+			}
+		}
+		return false
+	}
+	if oc.at != nil && !stableBetween(ld, oc.at, kill) {
+		return "", false
+	}
+	k := "cell:" + cell.Name()
+	oc.noteUnsigned(k, ld.Type())
+	return k, true
+}
+
+func calleeClosure(v ssa.Value) *ssa.Function {
+	switch x := v.(type) {
+	case *ssa.MakeClosure:
+		return x.Fn.(*ssa.Function)
+	case *ssa.Function:
+		return x
+	case *ssa.UnOp:
+		if al, ok := x.X.(*ssa.Alloc); ok {
+			for _, ref := range *al.Referrers() {
+				if st, isSt := ref.(*ssa.Store); isSt && st.Addr == al {
+					if f := calleeClosure(st.Val); f != nil {
+						return f
+					}
+				}
+			}
+		}
+	}
+	return nil
+}
+
+// closuresWriting: the anonymous functions of fn (transitively) that store to the given cell
+// (an Alloc of fn captured by them) — or, when cell is a FreeVar, nothing (conservatively all siblings are unknown).
+func closuresWriting(fn *ssa.Function, cell ssa.Value) map[*ssa.Function]bool {
+	out := map[*ssa.Function]bool{}
+	al, ok := cell.(*ssa.Alloc)
+	if !ok {
+		return out
+	}
+	var visit func(f *ssa.Function, fv *ssa.FreeVar)
+	visit = func(f *ssa.Function, fv *ssa.FreeVar) {
+		for _, ref := range *fv.Referrers() {
+			switch r := ref.(type) {
+			case *ssa.Store:
+				if r.Addr == fv {
+					out[f] = true
+				}
+			case *ssa.MakeClosure:
+				inner := r.Fn.(*ssa.Function)
+				for i, b := range r.Bindings {
+					if b == fv {
+						visit(inner, inner.FreeVars[i])
+						if out[inner] {
+							out[f] = true
+						}
+					}
+				}
+			}
+		}
+	}
+	for _, ref := range *al.Referrers() {
+		if mc, isMC := ref.(*ssa.MakeClosure); isMC {
+			inner := mc.Fn.(*ssa.Function)
+			for i, b := range mc.Bindings {
+				if b == al {
+					visit(inner, inner.FreeVars[i])
+				}
+			}
+		}
+	}
+	return out
+}
+
+// SrcName gives a source-level name to a value for stable construct keys: parameter, captured or
+// local variable name, last field of an access path, len(x), constant; "expr" otherwise (never an SSA register number).
+func SrcName(v ssa.Value) string {
+	for i := 0; i < 6; i++ {
+		switch x := v.(type) {
+		case *ssa.Parameter:
+			return x.Name()
+		case *ssa.FreeVar:
+			return x.Name()
+		case *ssa.Alloc:
+			if x.Comment != "" {
+				return x.Comment
+			}
+			return "local"
+		case *ssa.Phi:
+			if x.Comment != "" {
+				return x.Comment
+			}
+			return "expr"
+		case *ssa.Const:
+			if x.Value != nil {
+				return x.Value.ExactString()
+			}
+			return "nil"
+		case *ssa.Convert:
+			v = x.X
+			continue
+		case *ssa.ChangeType:
+			v = x.X
+			continue
+		case *ssa.Call:
+			if b, ok := x.Call.Value.(*ssa.Builtin); ok && len(x.Call.Args) >= 1 {
+				return b.Name() + "(" + SrcName(x.Call.Args[0]) + ")"
+			}
+			if cal := x.Call.StaticCallee(); cal != nil {
+				return cal.Name() + "()"
+			}
+			return "call"
+		case *ssa.UnOp:
+			if x.Op == token.MUL {
+				if _, path := AccessPath(x); len(path) > 0 {
+					return path[len(path)-1]
+				}
+				v = x.X
+				continue
+			}
+			return "expr"
+		case *ssa.Field:
+			if _, path := AccessPath(x); len(path) > 0 {
+				return path[len(path)-1]
+			}
+			return "field"
+		case *ssa.Extract:
+			v = x.Tuple
+			continue
+		case *ssa.BinOp:
+			return "(" + SrcName(x.X) + x.Op.String() + SrcName(x.Y) + ")"
+		}
+		break
+	}
+	return "expr"
 }
